@@ -140,7 +140,7 @@ module_text = \'\'\'
 etail = []
 for h, r, obs in eharness:
     etail.append('[[harness]]\nname = "%s"\nfunction = "%s"\nobligations = [\n%s\n]\n' % (h, r, '\n'.join('  "%s",' % o for o in obs)))
-open(os.path.join(ROOT, 'contracts', 'c15_entity.toml'), 'w').write(ehead + '\n'.join(etail))
+open(os.environ.get('C15_ENTITY_OUT', '/dev/null'), 'w').write(ehead + '\n'.join(etail))
 head = '''# GENERATED by tools/gen_c15.py -- edit the generator, not this file
 unit   = "c15_layout"
 engine = "kani-overlay"
